@@ -66,7 +66,7 @@ def relevant(a):
     s = a[0]
     if re.search(r"cursor\([SETXPW]", s) and "loc(" not in s:
         return False
-    return bool(re.search(r"self\b|arg\d|usercall|loc\(|altpos|secondary_since|is_empty|size_of|peek|memo|elem\(|call\(", s))
+    return bool(re.search(r"self\b|arg\d|usercall|loc\(|altpos|secondary_since|is_empty|size_of|peek|memo|elem\(|[A-Za-z_]\w*\(|fn<", s))
 
 
 def norm_facts(facts):
@@ -98,6 +98,8 @@ def norm_effects(seg):
             out.append("%s %s..%s" % (e[1], e[2], e[3]))
         elif k == "stash":
             out.append("stash cursor@%s" % e[2])
+        elif k == "uarg":
+            out.append("passes %s" % e[1].replace(" ", ""))
         elif k == "oparg":
             out.append("%s@%s" % (e[1], e[2]))
     out = [re.sub(r"\('([^']+)',\s*'([^']+)',\s*\d+\)", r"\1.\2", x) for x in out]
